@@ -45,11 +45,14 @@ fn char_style<'a>(t: &TextItem<C>, font: &'a MonoFont<'a>) -> MonoTextStyle<'a, 
 }
 
 fn build<'a>(t: &'a TextItem<C>, font: &'a MonoFont<'a>) -> Text<'a, MonoTextStyle<'a, C>> {
-    Text::with_text_style(&t.text, t.pos, char_style(t, font), t.text_style())
+    // the item's API route for the `Text` constructor and the text style, with the (possibly spaced) font
+    let t0 = t.build();
+    Text { text: t0.text, position: t0.position, character_style: char_style(t, font), text_style: t0.text_style }
 }
 
 fn layout(d: &mut Dec, cx: &mut Cx, spaced: bool) -> Res {
     let mut item = gen_text::<C>(d, 30, 12);
+    item.pos += crate::gen::far_offset(d);
     // strings with CR LF in this property are generated as LF and converted below
     item.text = item.text.replace("\r\n", "\n");
     let with_crlf = d.ratio(1, 3);
